@@ -76,6 +76,36 @@ def run(ctx):
             continue
         diff = [k for k in a if keyof(_u(a[k])) != keyof(_u(b.get(k)))]
         ctx.ob("C08.permute", f"mineral={phase}", not diff, f"arguments that change under the permutation: {diff}", mloc)
+    # the same through the published parameter record: a record declared with the phases in any order hands each phase its own fraction
+    from ..interp import Interp, RaiseSig
+    from .common import public, enum
+    I = Interp(ctx.program)
+    try:
+        cv = public(ctx, I, "pydrex.core.DefaultParams")
+    except Exception:
+        cv = None
+    if cv is not None:
+        rloc = ctx.program.loc(ctx.program.module("pydrex.core"), cv.node) if hasattr(cv, "node") else mloc
+        members = {n: enum(I, "pydrex.core.MineralPhase", n) for n in ("olivine", "enstatite")}
+        for assemblage, fr in ((("olivine", "enstatite"), (p, q)), (("enstatite", "olivine"), (q, p))):
+            tag = f"parameter record declared with assemblage={assemblage}"
+            try:
+                rec = I.call(cv, (), {"phase_assemblage": tuple(members[a] for a in assemblage), "phase_fractions": tuple(fr)})
+                d = I.call(I.getattr(rec, "as_dict", None), ())
+                pa, pf = list(d["phase_assemblage"]), list(d["phase_fractions"])
+                bad = []
+                for a, f_ in zip(assemblage, fr):
+                    pos = [i for i, m in enumerate(pa) if m == members[a]]
+                    got = pf[pos[0]] if len(pos) == 1 and pos[0] < len(pf) else None
+                    if not (isinstance(got, E) and got == f_):
+                        bad.append(f"{a}: declared {short(f_)}, the record pairs it with {short(got) if got is not None else 'nothing'}")
+                ctx.ob("C08.own-phase", tag, not bad, "; ".join(bad), rloc)
+            except RaiseSig as r:
+                ctx.ob("C08.own-phase", tag, False, f"raises {r.exc.typename}", rloc)
+            except Exception as ex:
+                if type(ex).__name__ not in ("Unsupported", "AlgError", "KeyError"):
+                    raise
+                ctx.ob("C08.own-phase", tag, "inconclusive", f"outside the interpreted subset: {str(ex)[:100]}", rloc)
     ctx.floor("C08.own-phase", 6)
     ctx.floor("C08.permute", 2)
     bulk(ctx, p, q)
